@@ -25,7 +25,7 @@ func init() {
 		Explain: "Conformance is a relation between document structure and the specification's output values; block structure, list arithmetic, emphasis, link resolution are computed from the input and are NOT decided — no clause of them is visible in the shape of the code, and the specification text is not available offline. Decided are two data-level necessary conditions of 'backslash or entity escapes mean what the specification says', evaluated from the source: (N) every decoder of numeric character references parses the digit run with the constant base 10 (decimal) or 16 (hexadecimal) — base 0 would re-interpret '&#0035;' as octal — and only for runs of at most 7 decimal / 6 hexadecimal digits, and the sibling decoders (the util resolver used for link destinations and the HTML writer used for text) agree on base and limits; (P) the set of backslash-escapable bytes, evaluated for all 256 values from util.IsPunct and its table, is exactly ASCII punctuation. Everything else in the statement is left undecided.",
 		Trusted: []string{"the two constants of the specification used here: numeric references have 1–7 decimal or 1–6 hexadecimal digits; any ASCII punctuation may be backslash-escaped"},
 		Assumes: []string{"built-in parsers and renderers only"},
-		Rules:   []func(*World, *Report){ruleNumericReferenceDecoders, rulePunctuationSet, ruleLabelNormalisation, ruleColumnsFromLineOffset, ruleBlockStateInitialised, ruleTitleDelimiters, ruleEntityTable, ruleCaseFoldingTable, ruleWideGuards, ruleBlankFlagCarriedOver, ruleHTMLBlockEndCaseInsensitive, ruleFoldingLooksEveryRuneUp, ruleWideGuardsEverywhere, ruleBackwardWindowsExact, ruleRawTextNotDecoded, ruleLowerCaseTables},
+		Rules:   []func(*World, *Report){ruleNumericReferenceDecoders, rulePunctuationSet, ruleLabelNormalisation, ruleColumnsFromLineOffset, ruleBlockStateInitialised, ruleTitleDelimiters, ruleEntityTable, ruleCaseFoldingTable, ruleWideGuards, ruleBlankFlagCarriedOver, ruleHTMLBlockEndCaseInsensitive, ruleFoldingLooksEveryRuneUp, ruleWideGuardsEverywhere, ruleBackwardWindowsExact, ruleRawTextNotDecoded, ruleLowerCaseTables, ruleNoByteSkipped},
 	})
 }
 
